@@ -5,7 +5,8 @@ import importlib
 RULES = {}
 
 for _pid in ('c01', 'c02', 'c03', 'c04', 'c05', 'c06', 'c07', 'c08', 'c09',
-             'c10', 'c11', 'c12', 'c13', 'c14', 'c15', 'c16', 'c18', 'c19'):
+             'c10', 'c11', 'c12', 'c13', 'c14', 'c15', 'c16', 'c17', 'c18',
+             'c19'):
     try:
         _m = importlib.import_module('.' + _pid, __name__)
     except ModuleNotFoundError as _e:
